@@ -541,6 +541,40 @@ Theorem C10_pdr_model_fail_complete_sys :
 Proof. exact pdr_model_fail_complete_sys. Qed.
 Print Assumptions C10_pdr_model_fail_complete_sys.
 
+(** Beyond the frame bound the property FAILS for the model: when every counterexample is longer than
+    MAX_FRAMES steps the answer is Unknown (at the frame limit) - for every truthful oracle.  Concrete
+    instance: [deep_counter], the 11-bit counter c' = c + 1 from 0 with bad = (c == 1500). *)
+Theorem C10_pdr_model_deep_unknown_sys :
+  forall (sy : sys) (W EM : Type) (solve : nat -> query slit -> answer slit (sstate sy) EM) (cmd_fail : nat -> option EM) (n_init : nat)
+         (gen_on : bool) (bmc_result : bmc_answer W EM),
+    fin_class sy = true ->
+    forall (fuel bf : nat),
+    (forall n q, truthful slit slit_eqb (sstate sy) EM (slit_holds sy) (st_bad0 sy) (st_step0 sy) (st_trans sy) (st_bad sy)
+                          q (solve n q)) ->
+    no_faults slit (sstate sy) W EM solve cmd_fail bmc_result ->
+    bad_reachable sy -> (forall k, k <= MAX_FRAMES -> ~ bad_reachable_within sy k) ->
+    pdr_fuel_bound (nstates sy) < fuel -> pdr_block_fuel_bound (nstates sy) < bf ->
+    exists st', pdr slit slit_eqb (sstate sy) (scube sy) W EM solve cmd_fail n_init gen_on (has_bads_of sy) bmc_result fuel bf = Ok (VUnknown W, st') /\
+                MAX_FRAMES < length (p_frames slit (sstate sy) EM st').
+Proof. exact pdr_model_deep_unknown_sys. Qed.
+Print Assumptions C10_pdr_model_deep_unknown_sys.
+
+Theorem C10_pdr_model_unknown_on_deep_counter :
+  forall (W EM : Type) (solve : nat -> query slit -> answer slit (sstate deep_counter) EM) (cmd_fail : nat -> option EM) (n_init : nat)
+         (gen_on : bool) (bmc_result : bmc_answer W EM) (fuel bf : nat),
+    (forall n q, truthful slit slit_eqb (sstate deep_counter) EM (slit_holds deep_counter) (st_bad0 deep_counter) (st_step0 deep_counter)
+                          (st_trans deep_counter) (st_bad deep_counter) q (solve n q)) ->
+    no_faults slit (sstate deep_counter) W EM solve cmd_fail bmc_result ->
+    pdr_fuel_bound (nstates deep_counter) < fuel -> pdr_block_fuel_bound (nstates deep_counter) < bf ->
+    exists st', pdr slit slit_eqb (sstate deep_counter) (scube deep_counter) W EM solve cmd_fail n_init gen_on
+                    (has_bads_of deep_counter) bmc_result fuel bf = Ok (VUnknown W, st') /\
+                MAX_FRAMES < length (p_frames slit (sstate deep_counter) EM st').
+Proof. exact pdr_model_unknown_on_deep_counter. Qed.
+Print Assumptions C10_pdr_model_unknown_on_deep_counter.
+
+Example C10_deep_counter_example : fin_class deep_counter = true /\ reach_spec deep_counter = Unsafe 1500.
+Proof. vm_compute. split; reflexivity. Qed.
+
 (** The hypotheses are satisfiable for EVERY small system of the class: with the exhaustive-search oracle
     over the listed valuations (truthful: [C10_pdr_enum_oracle_truthful]; it never answers "unknown") and a
     BMC oracle that returns a witness, the model decides the system. *)
